@@ -105,6 +105,22 @@ class C19(Prop):
             c.grp, c.role = "g%d" % g, "base"
             yield c
 
+        # 64-bit integers beyond 2^53 (not representable in binary64), probed only where (N-1)q is integral: there the
+        # fraction is 0 and every strategy must return the order statistic itself, exactly (endpoints, bounds,
+        # bracket, coincidence); in between Linear is outside the property's quantifier (C19_linear_limit)
+        for rep in range(4 if tier == "quick" else 80):
+            for et, base in (("i64", 2 ** 53 + 1), ("i64", -(2 ** 53) - 1), ("u64", 2 ** 60 + 100), ("i64", 2 ** 62 + 12345), ("u64", 2 ** 64 - 200)):
+                g += 1
+                n = rng.choice([2, 3, 5, 9])
+                vals = [base + rng.choice([0, 1, 2, 3, 5, 7, 11, 100]) for _ in range(n)]
+                qs = [k / (n - 1) for k in range(n)]
+                if any(q * float(n - 1) != float(k) for k, q in enumerate(qs)):
+                    continue
+                for strat in range(5):
+                    c = mk_q_case("quantiles1", et, strat, [n], 0, vals, qs, lay1(n, rng.choice([1, 2, -1]), 0, 0), ("P", rng.below(3)))
+                    c.grp, c.role = "g%d" % g, "base"
+                    yield c
+
     def parse(self, case):
         parse_q(case)
 
